@@ -73,7 +73,7 @@ def run_pmm(ctx, prop):
     ctx.cov["states"] -= ctx.cov["legs"]["emit-cases"]["distinct"]       # the emission run only enumerates Init
     ctx.cov["transitions"] -= ctx.cov["legs"]["emit-cases"]["generated"]
     # design mutants: the monitor must reject realistic wrong designs (guards against a vacuous oracle)
-    bugs = ["BootJumpToKernelEnd"] if boot else (["CountIsEndMinusStart", "FreeNoBitTest"] if q else
+    bugs = ["BootJumpToKernelEnd", "ReplayKeepsCursor"] if boot else (["CountIsEndMinusStart", "FreeNoBitTest"] if q else
                                                  ["CountIsEndMinusStart", "SkipEarlyReplay", "PoolForFrameStrict", "FreeNoBitTest"])
     for b in bugs:
         ctx.expect_model_violation(d, "MCPmm", "MCPmmBug_" + b, timeout=600)
@@ -101,7 +101,7 @@ def run_pmm(ctx, prop):
         traces.append(("G-hist", tr2))
     # ---- leg T: random maps and histories at real scale
     tr3 = os.path.join(ctx.work, "trace_t.ndjson")
-    n = (400 if q else 6000) if boot else (150 if q else 3000)
+    n = (250 if q else 5000) if boot else (150 if q else 3000)
     rc, out, _ = ctx.gotest("kernel", "mm/pmm", HARNESS, "TestVerifPmmRandom",
                             env={"TRACE_OUT": tr3, "NTRACES": n, "VERIF_PMM_MODE": mode}, timeout=400)
     if rc != 0:
